@@ -54,8 +54,19 @@ func Explore(w *World, fns []*ssa.Function, cfg Config, workers int) (*Stats, ma
 					cond.Broadcast()
 					break
 				}
-				it := stack[len(stack)-1]
-				stack = stack[:len(stack)-1]
+				// take the newest item of the harness that has been served least (depth-first within a
+				// harness, fair between harnesses)
+				pick := -1
+				for i := len(stack) - 1; i >= 0; i-- {
+					if pick < 0 || perHarness[stack[i].fn.Name()] < perHarness[stack[pick].fn.Name()] {
+						pick = i
+					}
+					if len(stack)-i > 64 {
+						break
+					}
+				}
+				it := stack[pick]
+				stack = append(stack[:pick], stack[pick+1:]...)
 				name := it.fn.Name()
 				perHarness[name]++
 				over := cfg.MaxPaths > 0 && perHarness[name] > cfg.MaxPaths
